@@ -168,7 +168,8 @@ def h_accept_any(E, mode, explain, N, strip_all=False, clean_spaces=True):
     ml = E.int('min_length', 0, 5)
     mw = E.int('min_words', 0, 3)
     with shadow(SG, re=rx.ReShim(), str=sym_str), shadow(VS, isinstance=sym_isinstance), shadow(VV, isinstance=sym_isinstance):
-        g = StringGrader(min_length=ml, min_words=mw, explain_minimums=explain, strip_all=strip_all, clean_spaces=clean_spaces, **{mode: True})
+        flags = dict(accept_any=True, accept_nonempty=True) if mode == 'both' else {mode: True}      # both switches on: still at least one character
+        g = StringGrader(min_length=ml, min_words=mw, explain_minimums=explain, strip_all=strip_all, clean_spaces=clean_spaces, **flags)
         try:
             r = g(None, s)
             raised = None
@@ -179,7 +180,7 @@ def h_accept_any(E, mode, explain, N, strip_all=False, clean_spaces=True):
     if mode == 'accept_nonempty':
         need = E.mode == 'conc' and (max(ml, 1)) or (ml if False else None)
     nchars = len(cleaned)
-    if mode == 'accept_nonempty':
+    if mode in ('accept_nonempty', 'both'):
         long_enough = sand(nchars >= 1, ml <= nchars)
     else:
         long_enough = ml <= nchars
@@ -332,6 +333,8 @@ def harnesses(tier):
     for cs, st, sa, cl in itertools.product((True, False), repeat=4):
         add(h_clean, 'clean', dict(case_sensitive=cs, strip=st, strip_all=sa, clean_spaces=cl, N=N), 'all Unicode strings of length <= %d' % N,
             max_paths=150000 if T else None)
+    add(h_accept_any, 'accept', dict(mode='both', explain='err', N=3), 'accept_any and accept_nonempty both on; all Unicode strings, symbolic minimums')
+    add(h_accept_any, 'accept', dict(mode='both', explain=None, N=3), 'accept_any and accept_nonempty both on; all Unicode strings, symbolic minimums')
     for mode in ('accept_any', 'accept_nonempty'):
         for explain in ('err', 'msg', None):
             add(h_accept_any, 'accept', dict(mode=mode, explain=explain, N=4 if T else 3), 'all Unicode strings, symbolic minimums')
